@@ -3,7 +3,8 @@
    indications. Definitions only. *)
 From CFDP Require Import Base.Prelude.
 
-Definition bytes := list N.
+Definition tbytes := list N.
+Notation bytes := tbytes.
 
 Inductive cond :=
 | NoError | PositiveLimitReached | KeepAliveLimitReached | InvalidTransmissionMode
@@ -21,7 +22,8 @@ Definition cond_code (c : cond) : N :=
   end.
 Definition cond_eqb (a b : cond) : bool := cond_code a =? cond_code b.
 
-Inductive action := ACancel | ASuspend | AIgnore | AAbandon.
+Inductive fault_action := ACancel | ASuspend | AIgnore | AAbandon.
+Notation action := fault_action.
 Inductive mode := Acked | Unacked.
 Inductive nakproc := Immediate (delay : N) | Deferred (delay : N).
 Definition nak_delay (p : nakproc) : N := match p with Immediate d => d | Deferred d => d end.
@@ -86,7 +88,7 @@ Record metadata := mkMeta {
 Record eof := mkEof { eof_cond : cond; eof_ck : N; eof_size : N; eof_fault : option N }.
 Record fin := mkFin { fin_cond : cond; fin_dc : delivery; fin_fs : fstatus;
                       fin_resps : list fsresp; fin_fault : option N }.
-Record ack := mkAck { ack_dir : directive; ack_sub : acksub; ack_cond : cond; ack_status : tstatus }.
+Record ack := mkAck { ack_dir : directive; ack_sub : acksub; ack_cond : cond; ack_tstatus : tstatus }.
 Record nak := mkNak { nak_start : N; nak_end : N; nak_reqs : list (N * N) }.
 
 (* payloads *)
@@ -108,7 +110,8 @@ Record opdu := mkOpdu {
   o_payload : payload
 }.
 
-Record report := mkReport { rp_state : tstate; rp_status : tstatus; rp_cond : cond }.
+Record treport := mkReport { trp_state : tstate; trp_status : tstatus; trp_cond : cond }.
+Notation report := treport.
 
 Inductive indication :=
 | ITransaction
